@@ -18,6 +18,7 @@ type C08Params struct {
 	SpanMs  int    `json:"span_ms"`           // injected over this span from the start
 	Target  string `json:"target"`            // c | s | both
 	Flood   string `json:"flood,omitempty"`   // "", frags: reassembly stress burst
+	Phase   string `json:"phase,omitempty"`   // "": injection while the handshake runs; "est": against an established session (modes U | K)
 }
 
 func c08Counts(tier string) (int, int) {
@@ -43,6 +44,13 @@ func c08Gen(r *rand.Rand, tier string, idx int) any {
 	}
 	p.N = 1 + r.IntN(60)
 	p.SpanMs = []int{5, 40, 200, 1500}[r.IntN(4)]
+	if p.Cfg != "" && r.IntN(2) == 0 {
+		p.Phase = "est"
+		p.Mode = []string{"U", "U", "K"}[r.IntN(3)]
+		p.N = 1 + r.IntN(40)
+
+		return p
+	}
 	if p.Mode == "any" && r.IntN(5) == 0 {
 		p.Flood = "frags"
 		p.N = 200 + r.IntN(1200)
@@ -163,7 +171,25 @@ func hostileDatagram(r *rand.Rand, captured [][]byte, cidLen int, uOnly bool) (d
 		if uOnly {
 			continue
 		}
-		switch r.IntN(7) {
+		switch r.IntN(8) {
+		case 7: // a complete, tiny handshake message whose bytes take the boundary values of length prefixes
+			n := r.IntN(7)
+			body := make([]byte, n)
+			if r.IntN(2) == 0 {
+				for i := range body {
+					body[i] = []byte{0, 0, 0, 1, 2, byte(n), byte(n - i), 0xff}[r.IntN(8)]
+				}
+			} // else: all length prefixes zero
+			h := make([]byte, 12)
+			// the messages an endpoint waits for in the middle of a handshake, then everything else
+			h[0] = []byte{16, 16, 12, 12, 11, 14, 15, 20, 0, 1, 2, 3, 4, 8, 13, 24, 25}[r.IntN(17)]
+			putU24(h[1:], n)
+			putU16(h[4:], r.IntN(5))
+			putU24(h[9:], n)
+			body = append(h, body...)
+			rec := []byte{CTHandshake, 0xfe, 0xfd, 0, 0, 0, 0, 0, 0, byte(r.IntN(256)), byte(r.IntN(256)), byte(len(body) >> 8), byte(len(body))}
+
+			return append(rec, body...), "tiny-message"
 		case 0: // any captured datagram with flipped bits anywhere
 			d := pick()
 			for k := 0; k < 1+r.IntN(6); k++ {
@@ -283,6 +309,11 @@ func c08CheckSizes(rc *RunCtx, name string, c *dtls.Conn) bool {
 func c08Run(rc *RunCtx, params any) {
 	p := params.(*C08Params)
 	s := rc.S
+	if p.Phase == "est" {
+		c08EstRun(rc, p)
+
+		return
+	}
 	var cspec, sspec EpSpec
 	if p.Cfg != "" {
 		cfg, ok := dataCfgByName(p.Cfg)
